@@ -96,4 +96,41 @@ theorem oob_session_fresh_src : oob_session_fresh = "&packetSession{}" := by dec
 theorem dns_default_udp_size_src : dns_default_udp_size = "cmp.Or(conf.UDPSize, dns.MinMsgSize)" := by decide
 theorem dns_default_tcp_size_src : dns_default_tcp_size = "cmp.Or(conf.TCPSize, dns.MinMsgSize)" := by decide
 
+/-! Round 5.  Writers and pools (`writeW`, `realWiring`): both plain-DNS writers are constructed with
+`s.respPool`; a writer takes its buffer from the pool it was constructed with, stores the packed slice
+back into `*bufPtr` (`*bufPtr = b`: the pooled slice is re-sliced) and gives it back when `err != nil`
+(DoQ: deferred, always); the receive paths take theirs from `udpPool` / `tcpPool` / `reqPool` and
+touch no other pool; `newServerDNS` makes three pools (`UDPSize`, `TCPSize`, `dns.MinMsgSize`),
+`NewServerQUIC` two. -/
+def udpWriterCtor : String :=
+  "&udpResponseWriter{ respPool: s.respPool, udpSession: sess, conn: conn, writeTimeout: s.conf.WriteTimeout, maxRespSize: s.conf.MaxUDPRespSize, }"
+def tcpWriterCtor : String :=
+  "&tcpResponseWriter{ respPool: s.respPool, writeMu: writeMu, conn: conn, writeTimeout: s.conf.WriteTimeout, idleTimeout: s.conf.TCPIdleTimeout, }"
+set_option maxRecDepth 16384 in
+theorem udp_writer_ctor_src : udp_writer_ctor = udpWriterCtor := by decide
+set_option maxRecDepth 16384 in
+theorem tcp_writer_ctor_src : tcp_writer_ctor = tcpWriterCtor := by decide
+theorem udp_writer_get_src : udp_writer_get = "r.respPool.Get()" := by decide
+theorem udp_writer_reslice_src : udp_writer_reslice = "b" := by decide
+theorem udp_writer_pool_calls_src :
+    udp_writer_pool_calls = "respPool.Get,respPool.Put,PackBuffer,WriteToSession" := by decide
+theorem udp_writer_put_cond_src : udp_writer_put_cond = "err != nil" := by decide
+theorem tcp_writer_get_src : tcp_writer_get = "r.respPool.Get()" := by decide
+theorem tcp_writer_reslice_src : tcp_writer_reslice = "b" := by decide
+theorem tcp_writer_pool_calls_src :
+    tcp_writer_pool_calls = "respPool.Get,respPool.Put,packWithPrefix,conn.Write" := by decide
+theorem tcp_writer_put_cond_src : tcp_writer_put_cond = "err != nil" := by decide
+theorem doq_writer_get_src : doq_writer_get = "s.respPool.Get()" := by decide
+theorem doq_writer_pool_calls_src :
+    doq_writer_pool_calls = "respPool.Get,respPool.Put,packWithPrefix,stream.Write" := by decide
+theorem doq_reader_get_src : doq_reader_get = "s.reqPool.Get()" := by decide
+theorem udp_reader_get_src : udp_reader_get = "s.udpPool.Get()" := by decide
+theorem udp_reader_pool_calls_src : udp_reader_pool_calls = "udpPool.Get,udpPool.Put,udpPool.Put" := by decide
+theorem tcp_reader_get_src : tcp_reader_get = "s.tcpPool.Get()" := by decide
+theorem dns_pools_new_src : dns_pools_new = "3" := by decide
+theorem dns_pool_new_0_src : dns_pool_new_0 = "conf.UDPSize" := by decide
+theorem dns_pool_new_1_src : dns_pool_new_1 = "conf.TCPSize" := by decide
+theorem dns_pool_new_2_src : dns_pool_new_2 = "dns.MinMsgSize" := by decide
+theorem doq_pools_new_src : doq_pools_new = "2" := by decide
+
 end Agd.Tie.C06
